@@ -334,6 +334,12 @@ def purge (self : Flav) (t : Tag) (n : Name) : List Decl → Proc → Proc
   | [], p => p
   | d :: ds, p => purge self t n ds (doUnassign self t n d.stack false p).2
 
+/-- "Delete all old occurrences of this tag", stack by stack (each stack is listed after the stacks before
+it have been purged; `findProducts` keeps one product per (name, version, flavor), hence not path-wide) -/
+def purgeAll (nst : Nat) (self : Flav) (t : Tag) (n : Name) : List Nat → Proc → Proc
+  | [], p => p
+  | s :: ss, p => purgeAll nst self t n ss (purge self t n (findProducts p.mem nst self n (some t) [s]) p)
+
 /-- redeclaration check: what `declare` decides about the version record -/
 inductive Redeclare
   | write        -- dodeclare
@@ -396,7 +402,7 @@ def declare (nst : Nat) (a : DeclareArgs) (p : Proc) : Outcome × Proc :=
       | none => (.ok, p1)
       | some t =>
         if a.noaction then (.ok, p1) else
-        let p2 := purge a.self t a.name (findProducts p1.mem nst a.self a.name (some t) (allStacks nst)) p1
+        let p2 := purgeAll nst a.self t a.name (allStacks nst) p1
         assignTag a.self t a.name a.ver [target] p2
 
 /-! ## `Eups.undeclare` -/
